@@ -21,7 +21,7 @@ LEVEL_TEXT = ('For each of the 8 types: temperature->voltage on a dense uniform 
               'ThermocoupleScaling applies the direction and the microvolt convention for all 8 codes on float32/float64 input.')
 LEVEL_NOTE = ('A grid, however dense, is not the real line: a deviation confined between two grid points (< 0.02 C wide) would be missed. '
               'Trusted: thermocouples_reference coefficient tables (independent transcription of NIST SRD 60) and the NIST inverse '
-              'ranges hard-coded below; per-type inverse bounds B .03, E .03, J .05, K .06, N .04, R .02, S .02, T .04 C (largest NIST-stated error over the pieces).')
+              'ranges hard-coded below; inverse bound = the NIST-stated error of the inverse polynomial covering the voltage (per piece, e.g. R 11.361-19.739 mV: 0.001 C) + 5% + 0.0001 C.')
 ASSUMPTIONS = ['NIST inverse validity ranges transcribed by hand from the ITS-90 tables']
 
 TYPES = 'BEJKNRST'
@@ -33,6 +33,29 @@ INV_RANGE = {'B': (250.0, 1820.0), 'E': (-200.0, 1000.0), 'J': (-210.0, 1200.0),
 # largest error magnitude NIST states for the inverse polynomials of each type (max over its pieces), deg C
 INV_BOUND = {'B': 0.03, 'E': 0.03, 'J': 0.05, 'K': 0.06, 'N': 0.04, 'R': 0.02, 'S': 0.02, 'T': 0.04}
 INV_SLACK = 0.003
+# NIST-stated error magnitude of each inverse polynomial, by its voltage range in mV (ranges overlap for R and S; where two
+# pieces cover a voltage the larger bound applies).  Slack: 5% of the bound + 0.0001 C (the stated bounds are rounded).
+INV_PIECES = {
+    'B': [((0.291, 2.431), 0.03), ((2.431, 13.820), 0.02)],
+    'E': [((-8.825, 0.0), 0.03), ((0.0, 76.373), 0.02)],
+    'J': [((-8.095, 0.0), 0.05), ((0.0, 42.919), 0.04), ((42.919, 69.553), 0.04)],
+    'K': [((-5.891, 0.0), 0.04), ((0.0, 20.644), 0.05), ((20.644, 54.886), 0.06)],
+    'N': [((-3.990, 0.0), 0.03), ((0.0, 20.613), 0.03), ((20.613, 47.513), 0.04)],
+    'R': [((-0.226, 1.923), 0.02), ((1.923, 13.228), 0.005), ((11.361, 19.739), 0.001), ((19.739, 21.103), 0.002)],
+    'S': [((-0.235, 1.874), 0.02), ((1.874, 11.950), 0.01), ((10.332, 17.536), 0.0002), ((17.536, 18.693), 0.002)],
+    'T': [((-5.603, 0.0), 0.04), ((0.0, 20.872), 0.03)],
+}
+
+
+def inverse_bound(letter, v):
+    """allowed |error| per voltage: largest stated bound among the NIST pieces covering it (type bound outside all pieces)"""
+    out = np.zeros(v.shape)
+    for (a, b), bound in INV_PIECES[letter]:
+        m = (v >= a - 1e-9) & (v <= b + 1e-9)
+        out[m] = np.maximum(out[m], bound * 1.05 + 0.0001)
+    out[out == 0] = INV_BOUND[letter] + INV_SLACK
+    return out
+
 
 
 def table(letter):
@@ -163,9 +186,11 @@ def run_type(item):
         d[nan] = 0
         w = float(d.max())
         res['worst']['inverse'] = w
-        if w > INV_BOUND[letter] + INV_SLACK:
-            j = int(d.argmax())
-            bad('inverse-error', 'T=%r within %.3f C' % (float(ig[j]), INV_BOUND[letter] + INV_SLACK), '%r (error %.4f C)' % (float(got[j]), w), 'grid')
+        allowed = inverse_bound(letter, v)
+        if (d > allowed).any():
+            j = int(np.argmax(d - allowed))
+            w = float(d[j])
+            bad('inverse-error', 'T=%r within %.4f C' % (float(ig[j]), float(allowed[j])), '%r (error %.4f C)' % (float(got[j]), w), 'grid')
     # ThermocoupleScaling: direction and microvolt convention, float32 and float64 input
     from nptdms.scaling import ThermocoupleScaling
     sub = ig[:: max(1, len(ig) // 2000)]
